@@ -12,7 +12,8 @@ CHECKS = {
              "length over the alphabet) of the windowed statistics for periods 1..5, checks on every state that the transcribed incremental "
              "algorithm equals the textbook definition in exact rational arithmetic, and emits one behaviour per transition; every behaviour, "
              "and seeded scripted streams for periods up to 1024 and runs of 9 000-70 000 inputs, is replayed into the real crate at 10-45 "
-             "price units and compared with the exact expectation under the property's own tolerance.",
+             "price units and compared with the exact expectation under the property's own tolerance; the shortest models also contain 10^6 and 10^8 spikes and "
+             "reset followed by fresh continuations from every reachable state.",
         note="Inputs are affine images of small-integer lattices, not arbitrary doubles; TLC's exact arithmetic is limited to 32-bit "
              "integers; TLC, the Json community module, serde_json and the comparison code of the harness are trusted.",
         technique=TECH + "every transition of the closed state graph replayed into the real crate and compared with TLC's exact rational expectation",
@@ -22,7 +23,8 @@ CHECKS = {
              "MACD, KeltnerChannel and ChandelierExit over periods {1..5,7}, 6-64 period triples and five multipliers, scalar and bar inputs "
              "covering every TrueRange branch in every order; spec lemmas EmaLemma (recursion = closed-form sum over the whole history) and "
              "EmaConvex are model-checked; every transition is replayed into the real crate at 10-45 price units including 1e-18 and 3e10; "
-             "long recursions (to 30 000 inputs) are decided by the restart equivalence licensed by the spec (an EMA's state is its last output).",
+             "long recursions (one run past 65 536 calls in the quick tier, 140 000 in the thorough tier) are decided by the restart equivalence licensed by the spec "
+             "(an EMA's state is its last output); unvalidated bars (close outside [low, high], low above high) and reuse after reset are included.",
         note="Beyond the exact depth of TLC's 32-bit rationals (>= 8 steps for periods <= 5, 2-3 steps for periods >= 100) values are checked "
              "relationally, not against an exact number; inputs are affine images of integer lattices.",
         technique=TECH + "depth-bounded exhaustive behaviours replayed against exact rational expectations, plus restart-equivalence on long scripted runs",
@@ -52,6 +54,7 @@ CHECKS = {
         text="TLC enumerates, per kind, every interleaving (no state merging, depth-bounded) of operations on an original, a clone taken at any point, an unrelated "
              "instance with another period and a late fresh instance, and a clone taken at EVERY reachable state of the closed model (periods 1..3) followed by interleaved "
              "continuations; a seeded multi-threaded driver additionally records a trace of the real crate on 16 threads which TLC validates against TaTrace.tla; "
+             "clone_from into live instances of the same and of another period and separately constructed twins with longer windows are included; "
              "the behaviours are executed on 16 real threads and any two real instances with the same configuration and literal history must "
              "return bit-identical outputs -- within a behaviour, across behaviours and across threads -- and equal the specification's value.",
         note="Thread schedules are observed, not controlled; instances are never shared between threads (the API needs &mut self).",
@@ -87,7 +90,8 @@ CHECKS = {
         text="Spec invariants NonNeg and EmaConvex are model-checked; every transition of closed / depth-bounded models (SMA, WMA, SD, MAD, MIN/MAX, BB, EMA, TR, ATR, "
              "KC, CE, MACD, PPO; multipliers 0, 1/2, 2, 1000; resets) and seeded cancellation-engineered streams (10^6..10^17 spikes followed by flat stretches, "
              "offsets to 1e9) are replayed and the inequalities evaluated on the real outputs: SD/MAD/TR/ATR >= 0 and never NaN, MIN <= MAX, lower <= average <= upper, "
-             "CE exits against the window extremes supplied by the spec, histogram = line - signal, SMA/WMA/EMA inside the window / history range.",
+             "CE exits against the window extremes supplied by the spec, histogram = line - signal, SMA/WMA/EMA inside the window / history range; extra price units put "
+             "the lattice one ulp apart on top of 1.2e11 and at negative levels, clones are stepped on their own, and Streams.tla supplies the window bounds for a period of 100 000.",
         note="Band, exit and histogram relations are checked with the property's slack; the evidence records how many held with zero slack.",
         technique=TECH + "inequality invariants on the reference plus their evaluation on real outputs for every replayed transition and cancellation-engineered streams",
         ref="6 (C09)"),
@@ -100,7 +104,7 @@ CHECKS = {
         technique=TECH + "effective-input map Eff from the spec; real instances with equal Eff histories compared on scripted bar streams",
         ref="6 (C10)"),
     "C12": dict(
-        text="TLC explores every sequence up to depth 4 (5) over ordinary values, NaN, +-inf, +-f64::MAX, a subnormal, -0.0, reset and inconsistent bars for each kind "
+        text="TLC explores every sequence up to depth 4 (5) over ordinary values, NaN, +-inf, +-f64::MAX, a subnormal, -0.0, reset and inconsistent bars (also through the bar path of kinds that have both paths) for each kind "
              "and period 1..2 (1..3), and executes scripted runs of 3*period+3 calls for every period 1..64 (plus sampled up to 4096) with faults injected at varying "
              "cursor positions followed by reset and reuse; the spec invariant Safe (every ring index and counter in bounds in the transcribed algorithm) holds on "
              "all of them, and in the real crate -- built with overflow checks and debug assertions -- next, reset, clone, Display, Debug, bincode and serde_json "
